@@ -457,6 +457,29 @@ def check_mtf_pipeline(ctx, psfs):
                         'grid_size': g, 'psf': [[float(v) for v in row] for row in ps], 'violates_property': False})
         if rr[1] > len(rr[2]):
             dis.append({'what': f'{rr[1] - len(rr[2])} further mismatches', 'violates_property': False})
+    # several PSFs in one call (one per field): curve k must be the curve of psf k alone
+    by_size = {}
+    for idx, (g, ps) in enumerate(items):
+        if ps.shape[0] == g:
+            by_size.setdefault(g, []).append(idx)
+    nstack = 0
+    for g, idxs in by_size.items():
+        for nf in (2, 3, 4):
+            if len(idxs) < nf:
+                continue
+            grp = idxs[:nf]
+            m = object.__new__(FFTMTF)
+            m.psf = [items[i][1] for i in grp]
+            m.grid_size = g
+            got = m._generate_mtf_data()
+            nstack += 1
+            for k, i in enumerate(grp):
+                d_ = max(float(np.max(np.abs(np.asarray(got[k][0]) - real[i][0]))), float(np.max(np.abs(np.asarray(got[k][1]) - real[i][1]))))
+                if not d_ <= 1e-12:
+                    dis.append({'kind': 'multi-field-mtf', 'site': 'FFTMTF._generate_mtf_data', 'fields_in_call': nf, 'field_index': k,
+                                'grid_size': g, 'max_diff_vs_single_field_call': d_, 'psfs': [[[float(v) for v in row] for row in items[j][1]] for j in grp],
+                                'violates_property': True})
+                    break
     nt = 0
     for (g, ps), (t, s) in zip(items, real):
         for nm, cv in (('tangential', t), ('sagittal', s)):
@@ -469,7 +492,8 @@ def check_mtf_pipeline(ctx, psfs):
             elif cv.min() < -1e-12 or cv.max() > 1 + 1e-9:
                 dis.append({'kind': 'mtf-range', 'site': 'FFTMTF._generate_mtf_data', 'curve': nm, 'min': float(cv.min()),
                             'max': float(cv.max()), 'grid_size': g, 'violates_property': True})
-    return {'name': 'mtf_pipeline', 'n': len(items) * 2, 'nontrivial': nt, 'disagreements': dis,
+    return {'name': 'mtf_pipeline', 'n': len(items) * 2 + nstack, 'nontrivial': nt, 'disagreements': dis,
+            'histogram': {'single-psf calls': len(items), 'stacked 2..4-psf calls': nstack},
             'samples': [{'grid_size': items[0][0], 'tangential': [float(v) for v in real[0][0][:4]]}]}
 
 
